@@ -459,6 +459,7 @@ func keyStateOf(t *table, rows [][]val, cols []string, primary bool) keyState {
 	}
 	exactSeen := map[string]bool{}
 	looseSeen := map[string]bool{}
+	concatSeen := map[string]bool{} // region of C14's row-key finding: key parts printed without separator
 	res := keyOK
 	for _, r := range rows {
 		hasNull := false
@@ -480,10 +481,14 @@ func keyStateOf(t *table, rows [][]val, cols []string, primary bool) keyState {
 		if exactSeen[e] {
 			return keyDup
 		}
-		if looseSeen[l] {
+		var ck string
+		for _, i := range ci {
+			ck += r[i].text()
+		}
+		if looseSeen[l] || len(ci) > 1 && concatSeen[ck] {
 			res = keyUndecided
 		}
-		exactSeen[e], looseSeen[l] = true, true
+		exactSeen[e], looseSeen[l], concatSeen[ck] = true, true, true
 	}
 	return res
 }
